@@ -373,7 +373,10 @@ def step (st : DState) (line : String) : DState × String :=
       | none => "-"
       | some k => toString k
     let fuel := Spec.chainFuel steps (1, 1)
-    (st, s!"flat={bit (Spec.flatB st.chain0)} chain={bit (Spec.chainOK st.chain0 steps)} total={bit (Spec.chainOKc st.chain0 steps)} steps={steps.length} firstbad={bad} bits={String.join ((Spec.chainBits st.chain0 steps).map bit)}- fuelR={fuel.1} fuelF={fuel.2}")
+    let last := Spec.chainLast st.chain0 steps
+    let specFuel := Spec.fuelOK last
+    let regionOK := wf last && s2 last && contsOK last
+    (st, s!"flat={bit (Spec.flatB st.chain0)} chain={bit (Spec.chainOK st.chain0 steps)} total={bit (Spec.chainOKc st.chain0 steps)} steps={steps.length} firstbad={bad} bits={String.join ((Spec.chainBits st.chain0 steps).map bit)}- specfuel={bit specFuel} region={bit regionOK} fuelR={fuel.1} fuelF={fuel.2}")
   | ["CHK"] =>
     let G := st.g; let H := st.h
     let out := " ".intercalate [
